@@ -163,8 +163,14 @@ package dnsforward
 //@   requires held(s.serverLock)
 //@   modifies *
 // Prepare runs at start-up before the server is shared, and later from Reconfigure under the server lock.
+//@ ghost var defaultsDone bool
+// (C03: the access context is built from the completed settings, see defaultsDone below.)
 //@ func (s *Server) Prepare(conf *ServerConfig) (err error)
+//@   property C03
+//@   callsites-only
 //@   construction
+//@   ghost at entry: defaultsDone = false
+//@   callsite github.com/AdguardTeam/AdGuardHome/internal/dnsforward.newAccessCtx(allowed, disallowed, blocked) requires built-from-the-completed-settings: defaultsDone && blocked == s.conf.BlockedHosts && allowed == s.conf.AllowedClients && disallowed == s.conf.DisallowedClients
 //@   requires s.dnsFilter != nil ==> !held(s.dnsFilter.confMu) && !rheld(s.dnsFilter.confMu)
 //@   modifies *
 
@@ -439,16 +445,33 @@ package dnsforward
 //@   ensures already-answered: old(dctx.proxyCtx.Res) != nil ==> rc == resultCodeSuccess && dctx.proxyCtx.Res == old(dctx.proxyCtx.Res)
 //@   modifies *
 
+// ---- C03 (start-up): the access lists in force are built from the settings *after* the defaults have been filled in ----
+// (the default blocked hosts - version.bind, id.server, hostname.bind - exist only once initDefaultSettings has run; an
+// access context built before that blocks none of them although the API reports them)
+//@ func (s *Server) initDefaultSettings()
+//@   property C03
+//@   ensures some-blocked-hosts: len(s.conf.BlockedHosts) > 0 || len(defaultBlockedHosts) == 0
+//@   ghost at return: defaultsDone = true
+//@   modifies *
+
 // ---- C08: the address is anonymised once, before the log / statistics decisions and records; a query the log
 // (statistics) declines is not handed to it ----
 //@ ghost var okLog bool
 //@ ghost var okCount bool
+// A query is wanted only if the query log (the statistics) has been asked about exactly this query - whatever its type -
+// and said yes.
 //@ func (s *Server) shouldLog(host string, qt uint16, cl uint16, ids []string) (ok bool)
 //@   property C08
+//@   ghost at entry: qlOK = false
+//@   callsite (github.com/AdguardTeam/AdGuardHome/internal/querylog.QueryLog).ShouldLog(q, h, t, c, i) requires asked-about-this-query: h == host && t == qt && c == cl && i == ids
+//@   ensures wanted-only-if-the-log-agrees: ok ==> qlOK
 //@   ghost at return: okLog = ok
 //@   modifies *
 //@ func (s *Server) shouldCountStat(host string, qt uint16, cl uint16, ids []string) (ok bool)
 //@   property C08
+//@   ghost at entry: stOK = false
+//@   callsite (github.com/AdguardTeam/AdGuardHome/internal/stats.Interface).ShouldCount(q, h, t, c, i) requires asked-about-this-query: h == host && t == qt && c == cl && i == ids
+//@   ensures wanted-only-if-the-statistics-agree: ok ==> stOK
 //@   ghost at return: okCount = ok
 //@   modifies *
 //@ func (s *Server) logQuery(dctx *dnsContext, ip net.IP, processingTime time.Duration)
